@@ -303,7 +303,11 @@ class Sym:
             return NotImplemented
         return o / self
 
+    SIDE = []       # side conditions of fresh symbols introduced for non-polynomial operations (q*q == x, q >= 0), added to the job's assumptions
+
     def __pow__(self, k):
+        if isinstance(k, float) and k == 0.5 and not self.is_numeric():
+            return self.sqrt()
         if isinstance(k, Sym) and k.is_numeric():
             k = k.n
         if isinstance(k, float) and k == int(k):
@@ -345,6 +349,12 @@ class Sym:
                 if Sym.FORK is not None and kind in ('lt', 'le', 'gt', 'ge'):
                     return Sym.FORK.decide(kind, self, o)
                 raise
+        if kind in ('eq', 'ne'):
+            # no policy installed (kernels executed directly): a symbolic value is generic; the comparison is recorded above and its
+            # locus explored by the second pass
+            return kind == 'ne'
+        if Sym.FORK is not None:
+            return Sym.FORK.decide(kind, self, o)
         raise SymBranch('%s on symbolic values' % kind)
 
     def same(self, o):
@@ -396,8 +406,20 @@ class Sym:
         return 'Sym(<%s>/%d atoms)' % (str(self.n)[:60], len(self.d))
 
     def sqrt(self):
+        if self.is_numeric():
+            import math
+            from fractions import Fraction as _F
+            r = _F(math.isqrt(self.n.numerator), 1) / _F(math.isqrt(self.n.denominator), 1) if self.n >= 0 else None
+            if r is not None and r * r == self.n:
+                return Sym(r)
+            return Sym(snap_float(float(self.n) ** 0.5))
         if Sym.SQRT_HOOK is None:
-            raise TypeError('sqrt of a symbolic value')
+            # a fresh non-negative symbol q with q*q == x (side conditions collected for the solver)
+            q = fresh('sqrt')
+            L, R = identity_terms(q * q, self)
+            Sym.SIDE.append(L == R)
+            Sym.SIDE.append(q.n >= 0)
+            return q
         return Sym.SQRT_HOOK(self)
 
     RINT_HOOK = None
@@ -485,3 +507,4 @@ def reset():
     Sym.ATOMS.clear()
     Sym.DENOMS.clear()
     del Sym.EQ_EVENTS[:]
+    del Sym.SIDE[:]
